@@ -174,4 +174,21 @@ theorem statements_ok (a : AsT) (t : List AsT) : ∃ F, ∀ fuel, F ≤ fuel →
   simp only [List.cons_append] at h1 ⊢
   rcases hs with (⟨n, rfl⟩ | rfl | rfl) | ⟨x, rfl⟩ <;> simp [run, h1, h2]
 
+/-! ### fractions as the renderer writes them: `N/D`, `I N/D`, `-I N/D` (token level, any digit strings) -/
+
+theorem improper_fraction_parse (n d : String) (g : Nat) :
+    run (g + 40) .statements [.num n, .sym .div, .num d] = some (.bop .div (.num n) (.num d), []) := by
+  simp [run, leftLoop, symHead]
+
+/-- a mixed fraction is read as the SUM of its integer part and its fraction (the juxtaposition is not a product here) -/
+theorem mixed_fraction_parse (i n d : String) (g : Nat) :
+    run (g + 40) .statements [.num i, .num n, .sym .div, .num d] = some (.bop .plus (.num i) (.bop .div (.num n) (.num d)), []) := by
+  simp [run, leftLoop, symHead, isNum]
+
+/-- … and a negative one as `(-I) - N/D`, i.e. `-(I + N/D)` -/
+theorem neg_mixed_fraction_parse (i n d : String) (g : Nat) :
+    run (g + 40) .statements [.sym .sub, .num i, .num n, .sym .div, .num d] =
+      some (.bop .minus (.neg (.num i)) (.bop .div (.num n) (.num d)), []) := by
+  simp [run, leftLoop, symHead, isNum]
+
 end Fend.Parser
